@@ -384,3 +384,101 @@ def _lemma_spec(c):
 _cl = Contract("lemma.C18.V", _lemma_spec, [Instance("recurrences", lambda interp, ctx, nm: ((), {}))], props=("C18",), body=_lemma_body)
 _cl.no_bounded = True
 CONTRACTS.append(_cl)
+
+
+# ============================================================================ real_to_complex (C19)
+from fractions import Fraction
+from pyvc import arrays as A
+from pyvc.values import SArr, Cx, DType, SSlice
+from pyvc.sigmodel import sym_array
+from pyvc.stubs_fft import opaque_op
+
+
+def hilbert_weight(ctx, N, k):
+    """1 at DC, 2 on positive frequencies, 1 at Nyquist (even N), 0 on negative frequencies."""
+    two_k = V.mul(2, k)
+    return V.Ite(V.eq(k, 0), 1, V.Ite(V.lt(two_k, N), 2, V.Ite(V.eq(two_k, N), 1, 0)))
+
+
+def spec_real_to_complex(c, z, axis=0):
+    """C19: analytic signal along `axis`, mixed down by a quarter of the sampling rate and decimated
+    by two: ceil(N/2) samples; complex64 for float32 input, complex128 otherwise; complex refused."""
+    ctx = c.ctx
+    if not isinstance(z, SArr):
+        raise PyExc(("TypeError", "ValueError"), "array expected")
+    if z.is_complex:
+        raise PyExc("ValueError", "Input must be real-valued")
+    out_dt = DType("complex64" if z.dtype.name == "float32" else "complex128")
+    if not isinstance(axis, int) or not (-z.ndim <= axis < z.ndim):
+        raise PyExc(("IndexError", "ValueError", "TypeError"), "bad axis")
+    ax = axis % z.ndim
+    N = z.shape[ax]
+    zz = SArr(z.shape, z.elem, z.dtype, "numpy")
+    if c.branch(V.eq(N, 0), "empty axis"):
+        return A.astype(ctx, zz, out_dt)
+    F = opaque_op(ctx, "fft", zz, ax)
+    W = SArr(F.shape, lambda ix: hilbert_weight(ctx, N, ix[ax]), out_dt)
+    prod = A.elementwise(ctx, lambda f, w: V.cmul(f, w), [F, W], F.dtype if F.dtype.name == out_dt.name else DType("complex128"))
+    a = opaque_op(ctx, "ifft", prod, ax)
+    half_pi = V.div(ctx, V.PI, 2)
+    M = V.simp(V.floordiv_int(ctx, V.add(N, 1), 2))
+    shape = z.shape[:ax] + (M,) + z.shape[ax + 1:]
+
+    def elem(ix):
+        m = ix[ax]
+        src = ix[:ax] + (V.mul(2, m),) + ix[ax + 1:]
+        return V.cmul(a.elem(src), V.cis(V.neg(V.mul(half_pi, V.mul(2, m)))))
+    return SArr(shape, elem, out_dt)
+
+
+def r2c_theorems(c, result, z, axis=0):
+    """Numerical consequences (bounded only: they rest on DFT theory, which the uninterpreted FFT
+    does not carry): (-1)^m Re(out[m]) = z[2m]."""
+    ctx = c.ctx
+    if not getattr(ctx, "enumerate_quantifiers", False) or not isinstance(result, SArr):
+        return
+    import itertools
+    ax = axis % z.ndim
+    scale = max([abs(float(z.elem(ix))) for ix in itertools.product(*[range(int(d)) for d in z.shape])] + [1e-30])
+    for ix in itertools.product(*[range(int(d)) for d in result.shape]):
+        m = ix[ax]
+        src = ix[:ax] + (2 * m,) + ix[ax + 1:]
+        got = (-1) ** m * float(Cx.of(result.elem(ix)).re)
+        want = float(z.elem(src))
+        tol = (4e-6 if z.dtype.name == "float32" else 1e-12) * scale
+        ctx.oblige("thm.C19.real-part-is-input", abs(got - want) <= tol, "post")
+
+
+def inst_r2c():
+    out = []
+    for rank, axis in ((1, 0), (1, -1), (2, 0), (2, 1), (2, -1), (3, 1), (3, 0), (1, 1), (2, -3)):
+        for dt in ("float64", "float32", "int64", "complex128", "bool"):
+            if dt in ("complex128", "bool") and (rank, axis) != (2, 0):
+                continue
+            def build(interp, ctx, nm, rank=rank, axis=axis, dt=dt):
+                shape = []
+                for k in range(rank):
+                    d = nm.int(f"x_S{k}")
+                    ctx.assume(V.le(0, d), why="input: dims are non-negative")
+                    shape.append(d)
+                return (sym_array("x", shape, dt, nm=nm),), {"axis": axis}
+            out.append(Instance(f"rank={rank},axis={axis},{dt}", build))
+    def build(interp, ctx, nm):
+        d = nm.int("x_S0")
+        ctx.assume(V.le(0, d), why="input")
+        return (sym_array("x", (d,), "float64", nm=nm),), {}
+    out.append(Instance("rank=1,default-axis", build))
+    return out
+
+
+_rc = Contract("pulsarbat.utils.real_to_complex", spec_real_to_complex, inst_r2c(), props=("C19",))
+_rc.theorems = r2c_theorems
+
+
+def _r2c_tol(label, used):
+    from pyvc.concrete import Tol
+    return Tol(data_abs=3e-6 if "float32" in label else 1e-9)
+
+
+_rc.tol_fn = _r2c_tol
+CONTRACTS.append(_rc)
